@@ -481,6 +481,13 @@ def section_errors(ctx, rule):
                 for a in t2["args"]:
                     if a.get("k") in ("move", "copy") and a["place"]["l"] == dest and not a["place"]["p"]:
                         users.append(q.nice(t2.get("callee")))
+            if not users and dest == 0 and b.kind == "Closure":
+                # `raw.map.take().map(|m| decode_common(*m)).transpose()?`: the closure's result, turned inside out and propagated
+                rb = ctx.body(root)
+                cname = b.path.split("::", 1)[-1] if "::" in b.path else b.path
+                tries = [q.shape(rb.expr_of_call(t2)) for bj, t2 in rb.calls() if q.nice(t2.get("callee")) == "Try::branch"]
+                if any(q.wild("Try::branch(Option::transpose(Option::map(*,closure:*%s)))" % b.path.split("::")[-1], x) or q.wild("Try::branch(Option::transpose(Option::map(*,\u03bb(decoder::decode_common(*)))))", x) for x in tries):
+                    users = ["Try::branch"]
             ctx.check(users == ["Try::branch"], rule, b.path, "section-error:propagated",
                       "a section's embedded map that fails to decode fails the whole index (decode_common(..)? - the error is not swallowed)", ctx.site(b, bi), detail=str(users))
     ctx.floor(rule, root, "embedded-map decodes", n, 1)
